@@ -185,7 +185,9 @@ def step (st : St) (j : Json) : St × List String :=
   | "mstart" =>
     let st := { st with metric := metricAfterStart st.metric st.s.disk.count }
     (st, [s!"mstart metric={st.metric}"])
-  | "add" =>
+  | "add" | "dupadd" =>
+    -- dupadd: a second call adds the same transaction between the first call's read and write phase; the first call's
+    -- write function then finds it present — one Add in the model (`txAdded` stays false in the outer call)
     let tx := parseTx (jObj j "tx")
     let payload := match jStr j "payload" with | "ok" => some true | "bad" => some false | _ => none
     let r := add cfg st.s tx { payload := payload, commitFails := jStr j "fail" != "none" && jStr j "fail" != "",
